@@ -107,9 +107,9 @@ def _dedup(behaviours, topo, tag):
     return scns
 
 
-def model_scenarios(cfg, topo, work, tag, res, workers=8, timeout=600):
+def model_scenarios(cfg, topo, work, tag, res, workers=4, timeout=600):
     """every behaviour of a RecordHist configuration (exhaustive mode prints each complete history once)"""
-    r = check.tlc_model("MCAsyncIo", "mc/%s.cfg" % cfg, work, workers=workers, timeout=timeout)
+    r = check.tlc_model("MCAsyncIo", "mc/%s.cfg" % cfg, work, workers=workers, timeout=timeout, env={"JAVA_TOOL_OPTIONS": "-Xss512m -Xmx3g"})
     res.cmds.append("tlc -config mc/%s.cfg MCAsyncIo.tla  (PrintScn -> scenarios)" % cfg)
     _judge_model(r, cfg, res)
     scns = _dedup(parse_scn_lines(r["out"]), topo, tag)
@@ -124,7 +124,7 @@ def sim_scenarios(topo, n, seed, work, res, judge=True):
     meta = os.path.join(work, "simmeta_" + topo)
     cmd = ["tlc", "-workers", "1", "-simulate", "num=%d" % n, "-depth", "400", "-seed", str(seed), "-metadir", meta,
            "-cleanup", "-noGenerateSpecTE", "-config", cfg, "MCAsyncIo.tla"]
-    p = check.sh(cmd, cwd=check.SPEC, env=check.tlc_env(), timeout=600, check=False)
+    p = check.sh(cmd, cwd=check.SPEC, env=check.tlc_env({"JAVA_TOOL_OPTIONS": "-Xss512m -Xmx2g"}), timeout=600, check=False)
     shutil.rmtree(meta, ignore_errors=True)
     out = p.stdout
     bad = re.findall(r"Invariant (\w+) is violated", out)
@@ -295,7 +295,7 @@ def tlc_live(cfg, work, workers=4, timeout=400):
     """temporal checking; returns (held, names of the violated temporal properties, distinct, generated)"""
     meta = os.path.join(work, "meta_live_" + cfg)
     cmd = ["tlc", "-workers", str(workers), "-metadir", meta, "-cleanup", "-noGenerateSpecTE", "-config", "mc/%s.cfg" % cfg, "MCAsyncIo.tla"]
-    p = check.sh(cmd, cwd=check.SPEC, env=check.tlc_env(), timeout=timeout, check=False)
+    p = check.sh(cmd, cwd=check.SPEC, env=check.tlc_env({"JAVA_TOOL_OPTIONS": "-Xss512m -Xmx3g"}), timeout=timeout, check=False)
     shutil.rmtree(meta, ignore_errors=True)
     out = p.stdout
     g, d = check.parse_tlc_counts(out)
@@ -331,11 +331,16 @@ def model_runs(tier, work, res):
     cfgs = ["asyncio_q", "asyncio_q_two", "asyncio_q_life", "asyncio_q_b3"]
     jobs = [(c, 4, 150) for c in cfgs]
     if not quick:
-        jobs = [("asyncio_t", 12, 660), ("asyncio_t_b3", 8, 660), ("asyncio_t_b3n", 6, 660), ("asyncio_t_two", 4, 660)] + [(c, 2, 300) for c in cfgs]
-        jobs += [(c, 4, 300) for c in FIX_CFGS]
+        jobs = [("asyncio_t_b3", 6, 700), ("asyncio_t_life", 6, 700), ("asyncio_t", 6, 700), ("asyncio_t_b3n", 4, 700), ("asyncio_t_two", 4, 700)] \
+            + [(c, 2, 300) for c in cfgs] + [(c, 4, 400) for c in FIX_CFGS]
     jobs += [(c, 1, 120) for c in SHARED_CFGS]
-    with concurrent.futures.ThreadPoolExecutor(max_workers=4 if quick else 5) as ex:
-        futs = [(c, ex.submit(check.tlc_model, "MCAsyncIo", "mc/%s.cfg" % c, work, w, t)) for c, w, t in jobs]
+
+    def one(c, w, t):
+        # several JVMs side by side: bound the heap of each (the default is a quarter of the machine's memory)
+        return check.tlc_model("MCAsyncIo", "mc/%s.cfg" % c, work, workers=w, timeout=t,
+                               env={"JAVA_TOOL_OPTIONS": "-Xss512m -Xmx%dg" % (5 if c.startswith("asyncio_t") or c.startswith("asyncio_fix") else 2)})
+    with concurrent.futures.ThreadPoolExecutor(max_workers=4) as ex:
+        futs = [(c, ex.submit(one, c, w, t)) for c, w, t in jobs]
         results = [(c, f.result()) for c, f in futs]
     for c, r in results:
         res.cmds.append("tlc -config mc/%s.cfg MCAsyncIo.tla" % c)
@@ -355,7 +360,7 @@ def model_runs(tier, work, res):
     if not quick:
         live_runs(work, res)
         for c, want in VARIANT_CFGS.items():
-            r = check.tlc_model("MCAsyncIo", "mc/%s.cfg" % c, work, workers=4, timeout=200)
+            r = check.tlc_model("MCAsyncIo", "mc/%s.cfg" % c, work, workers=4, timeout=200, env={"JAVA_TOOL_OPTIONS": "-Xss512m -Xmx2g"})
             if r["ok"] or not set(_tup(want)) & set(r["violated"]):
                 raise check.ToolError("variant %s is not flagged by TLC (%s expected, %s reported): the invariant is vacuous for it" % (c, want, r["violated"]))
         res.notes.append("non-vacuity: %d variant configurations flagged by TLC (%s)" % (len(VARIANT_CFGS), ", ".join(
@@ -546,7 +551,7 @@ def engine(prop, tier, seed, work):
         else:
             sub("all_solo", model_scenarios, "asyncio_scn_t", "solo", work, "all_solo")
             sub("all_two", model_scenarios, "asyncio_scn_two", "two", work, "all_two")
-        nsim = 400 if quick else 6000
+        nsim = 400 if quick else 4000
         for topo in TOPOS:
             rs["sim_" + topo] = check.Result()
             parts["sim_" + topo] = ex.submit(sim_scenarios, topo, nsim if topo not in SHARED else nsim // 4, seed, work, rs["sim_" + topo],
@@ -555,7 +560,7 @@ def engine(prop, tier, seed, work):
         for r in rs.values():
             res.merge(r)
 
-        nrnd = 150 if quick else 3000
+        nrnd = 150 if quick else 2000
         by_topo = collections.OrderedDict((t, []) for t in TOPOS)
         for s in CURATED:
             by_topo[s["topo"]].append(s)
